@@ -20,7 +20,8 @@ MODEL_WAKEUP_FD = True   # SigchldHelper uses signal.set_wakeup_fd and wait() lo
 MODEL_SECOND_REAPER = False  # the Popen object is kept alive in the handle (D7 repaired)
 
 
-def exec_cfg(name, n, kinds, maxjobs, stops, launchfail, second_reaper, invs=EXEC_INVS, liveness=True, allow_abort=False):
+def exec_cfg(name, n, kinds, maxjobs, stops, launchfail, second_reaper, invs=EXEC_INVS, liveness=True, allow_abort=False,
+             job_control=False):
     path = os.path.join(C.SPECS, name)
     with open(path, "w") as f:
         f.write("CONSTANT N = %d\n" % n)
@@ -32,6 +33,7 @@ def exec_cfg(name, n, kinds, maxjobs, stops, launchfail, second_reaper, invs=EXE
         f.write("CONSTANT LaunchFail = %s\n" % ("TRUE" if launchfail else "FALSE"))
         f.write("CONSTANT SecondReaper = %s\n" % ("TRUE" if second_reaper else "FALSE"))
         f.write("CONSTANT WakeupFd = %s\n" % ("TRUE" if MODEL_WAKEUP_FD else "FALSE"))
+        f.write("CONSTANT JobControl = %s\n" % ("TRUE" if job_control else "FALSE"))
         f.write("CONSTANT AllowAbort = %s\n" % ("TRUE" if allow_abort else "FALSE"))
         f.write("SPECIFICATION Spec\n")
         for i in invs:
@@ -51,11 +53,12 @@ def model_check(rep, tier, prop, second_reaper):
             "C03": (["cmd", "group"], 2, [False, True], True),
             "C04": (["cmd", "group"], 3, [False], False),
         }.get(prop, (["exp", "cmd", "group"], 2, [False, True], True))
-        cfg = exec_cfg("_gen_Exec_%s.cfg" % prop, 3, kinds, maxjobs, stops, lfail, second_reaper)
+        # job control (tasks stopped and continued from outside) in the slices about slots and about termination
+        cfg = exec_cfg("_gen_Exec_%s.cfg" % prop, 3, kinds, maxjobs, stops, lfail, second_reaper, job_control=prop in ("C04",))
         res = C.run_tlc("Executor.tla", cfg=cfg, timeout=1200)
     else:
         cfg = exec_cfg("_gen_Exec_%s.cfg" % prop, 3, ["exp", "cmd", "group", "combine"], 3, [False, True], True,
-                       second_reaper)
+                       second_reaper, job_control=prop in ("C04", "C09"))
         res = C.run_tlc("Executor.tla", cfg=cfg, timeout=2400)
     if res.error or (res.timed_out and tier == "quick"):
         rep.machinery("TLC Executor model check failed: %s" % (res.error or "timeout"))
@@ -137,6 +140,9 @@ def make_scenarios(rng, tier, focus, count):
             stop = False
         if focus == "reap" and rng.random() < 0.3:
             sched["unrelated"] = True
+        if focus in ("slots", "reap") and k % 4 == 1:
+            # job control: running task processes get stopped and continued from outside (a stopped process still exists)
+            sched["allow_stop"] = True
         if focus == "fail" and k % 5 == 3:
             # a task cannot be launched while other parallel tasks are still running (first failure = launch failure)
             w = rng.choice([1, 2, 3])
@@ -151,8 +157,38 @@ def make_scenarios(rng, tier, focus, count):
             pkgs = RC.PLACEMENTS[k % len(RC.PLACEMENTS)][:n]
             sched = {"seed": rng.randrange(1 << 30), "codes": {}, "fail_launch": [RC.ident_of(pkgs, w + 2)],
                      "p_exit": 0.04, "p_deliver": 0.9, "allow_steal": False}
+            if rng.random() < 0.5:
+                # ... and q has further parallel dependents (s1, s2) that must still get a slot after the failed launch: a
+                # slot claimed for the task that could not be launched must be usable again
+                ns = rng.choice([1, 2, 3])
+                n = w + 2 + ns + 1
+                g = {"n": n, "target": n,
+                     "deps": [[] for _ in range(w)] + [[], [w + 1]] + [[w + 1] for _ in range(ns)] + [list(range(1, w + 1)) + list(range(w + 2, w + 3 + ns))],
+                     "kind": [kk3() for _ in range(w + 2 + ns)] + ["group"], "par": [True] * (w + 2 + ns) + [False],
+                     "cachedTs": [0] * n, "stale": [False] * n, "again": False, "atLeast": False, "now": 1000, "lastTs0": 0}
+                jobs = w + rng.choice([1, 2, ns + 1])
+                stop = False
+                pkgs = RC.PLACEMENTS[k % len(RC.PLACEMENTS)][:n] if n <= 6 else [""] * n
+                sched["fail_launch"] = [RC.ident_of(pkgs, w + 2)]
         scn = RC.scenario_from_graph(g, placement=k, jobs=jobs, stop=stop, sched=sched)
         scn["_n"] = n
+        if focus == "deps" and k % 10 == 7:
+            # one dependency listed twice under two spellings (":x" and "//pkg:x", "//pkg/:x"): such a definition must be
+            # rejected - and if it is ever accepted, the dependency must still run once and never next to its dependent
+            cand = [t for t in scn["project"]["tasks"] if t["deps"]]
+            if cand:
+                task = cand[rng.randrange(len(cand))]
+                d0 = task["deps"][rng.randrange(len(task["deps"]))]
+                pkg = task.get("pkg", "")
+                if d0.startswith(":"):
+                    alt = "//%s%s" % (pkg, d0)
+                elif d0.split(":")[0] == "//" + pkg and rng.random() < 0.5:
+                    alt = ":" + d0.split(":")[1]
+                else:
+                    alt = d0.replace(":", "/:") if not d0.startswith("//:") else d0
+                if alt != d0:
+                    task["deps"] = task["deps"] + [alt]
+                    scn["dup_spelling"] = True
         scns.append(scn)
     return scns
 
